@@ -440,7 +440,9 @@ func (r *runner) handleInterrupt(
 		Inputs:         make(map[string]any),
 		SkipPreHandler: map[string]bool{},
 	}
-	if state, ok := ctx.Value(stateKey{}).(*internalState); ok {
+	// only a graph that declares state owns one: a nested graph without state works on its parent's, which the
+	// parent's checkpoint carries
+	if state, ok := ctx.Value(stateKey{}).(*internalState); ok && r.runCtx != nil {
 		cp.State = state.state
 	}
 	intInfo := &InterruptInfo{
@@ -522,7 +524,9 @@ func (r *runner) handleInterruptWithSubGraphAndRerunNodes(
 		SkipPreHandler: skipPreHandler,
 		SubGraphs:      make(map[string]*checkpoint),
 	}
-	if state, ok := ctx.Value(stateKey{}).(*internalState); ok {
+	// only a graph that declares state owns one: a nested graph without state works on its parent's, which the
+	// parent's checkpoint carries
+	if state, ok := ctx.Value(stateKey{}).(*internalState); ok && r.runCtx != nil {
 		cp.State = state.state
 	}
 	intInfo := &InterruptInfo{
